@@ -88,8 +88,25 @@ def chain_invariant_native(vc):
     check("start")
     n_ops = vc.int("n_ops", lo=1, hi=5)
     for _ in range(n_ops):
-        op = rng.integers(0, 3)
-        if op == 0 and k2 != "ensemble":
+        op = rng.integers(0, 4)
+        if op == 3:
+            # saved and loaded in mid-run: what is recorded afterwards belongs to the same temperature as what was recorded before
+            import os, tempfile
+            tmpd = tempfile.mkdtemp(prefix="c03_")
+            path = os.path.join(tmpd, "s.npz")
+            try:
+                ch.save(path)
+                kwl = {"posterior": post}
+                if k2 == "hmc":
+                    kwl["grad"] = None if kind == "hmc_fd" else post.grad
+                ch = type(ch).load(path, **kwl)
+                seed_chain(ch, seed + 3)
+            finally:
+                for f_ in os.listdir(tmpd):
+                    os.remove(os.path.join(tmpd, f_))
+                os.rmdir(tmpd)
+            quiet(ch.advance, 2)
+        elif op == 0:
             ch.take_step()
         elif op == 1:
             quiet(ch.advance, int(rng.integers(0, 4)))
@@ -238,7 +255,7 @@ def limits_native(vc):
         if hasattr(ch, "ES"):
             ch.ES.epsilon *= 30.0
     # limits stay in force through a save / load round trip
-    if k2 in ("pca", "hmc", "ensemble") and kind != "hmc_fd" and vc.bool("restored_from_file"):
+    if k2 in ("pca", "hmc", "ensemble", "gibbs", "metropolis") and kind != "hmc_fd" and vc.bool("restored_from_file"):
         import os, tempfile
         tmpd = tempfile.mkdtemp(prefix="c04_")
         path = os.path.join(tmpd, "s.npz")
